@@ -11,6 +11,7 @@ import json
 import logging
 import os
 import pathlib
+import re
 import shutil
 import tempfile
 import warnings
@@ -144,19 +145,91 @@ def _lnk_j(l):
 
 
 def _lnk_o(j):
-    return None if j is None else Lnk.charspan(j[0], j[1])
+    """[a, b] = character span; {"k": "chart", "v": [a, b]} chart span; {"k": "tokens", "v": [..]} token list;
+    {"k": "edge", "v": n} edge id.  Built with the Lnk class methods, never through the string parser."""
+    if j is None:
+        return None
+    if isinstance(j, dict):
+        if j["k"] == "chart":
+            return Lnk.chartspan(j["v"][0], j["v"][1])
+        if j["k"] == "tokens":
+            return Lnk.tokens(list(j["v"]))
+        if j["k"] == "edge":
+            return Lnk.edge(j["v"])
+        raise ValueError(j)
+    return Lnk.charspan(j[0], j[1])
+
+
+def _strip_kinds(j, units):
+    """copy of the item description with the non-character lnks taken out (semgen builds character spans only)"""
+    j2 = copy.deepcopy(j)
+    for u in j2[units]:
+        if isinstance(u.get("lnk"), dict):
+            u["lnk"] = None
+    return j2
+
+
+# which Lnk kinds a format carries on predications / nodes (read off the codecs: the text formats write str(lnk), the
+# XML and JSON formats only cfrom/cto resp. from/to); deliberately a literal table, not measured through the readers
+TEXT_LNK_FORMATS = {"simplemrs", "simpledmrs", "eds", "edspenman", "ace"}
+# targets that cannot take the non-character kinds at all (item-codec matters, kept out): DMRS-PENMAN's encoder raises
+# ValueError on them; Indexed MRS writes str(lnk) but its lexer only knows <from:to>
+NO_KIND_TARGETS = {"dmrspenman", "indexedmrs"}
+LNK_KINDS = ["char", "chart", "tokens", "edge", "none"]
+
+
+def lnk_kinds_of(fmt):
+    return list(LNK_KINDS) if fmt in TEXT_LNK_FORMATS else ["char", "none"]
+
+
+def make_lnk(rng, kind, k):
+    if kind == "none":
+        return None
+    if kind == "char":
+        return _span(rng, k)
+    if kind == "chart":
+        a = k + rng.randrange(3)
+        return {"k": "chart", "v": [a, a + rng.randrange(1, 4)]}
+    if kind == "tokens":
+        a = k + rng.randrange(3)
+        return {"k": "tokens", "v": list(range(a, a + rng.randrange(1, 4)))}
+    return {"k": "edge", "v": 3 * k + rng.randrange(1, 40)}
+
+
+def apply_lnk_kinds(rng, rep, items, kinds, p=0.45, force=None):
+    """replace lnks that are there (and, with `force`, every lnk incl. the graph-level one) by other kinds"""
+    for it in items:
+        units = it["rels"] if rep == "mrs" else it["nodes"]
+        for k, u in enumerate(units):
+            if force is not None:
+                u["lnk"] = make_lnk(rng, force, k)
+            elif u.get("lnk") is not None and rng.random() < p:
+                u["lnk"] = make_lnk(rng, rng.choice(kinds), k)
+        if force is not None and rep != "eds":
+            it["mlnk"] = make_lnk(rng, force, len(units))
+            if force == "none":
+                it.pop("msurface", None)
+        elif it.get("mlnk") is not None and rng.random() < p:
+            it["mlnk"] = make_lnk(rng, rng.choice([x for x in kinds if x != "none"]), len(units))
+    return items
 
 
 def build_item(rep, j):
     """fresh object of representation `rep` from its JSON description"""
     if rep == "mrs":
-        m = semgen.mrs_from_json(j)
+        m = semgen.mrs_from_json(_strip_kinds(j, "rels"))
+        for ep, je in zip(m.rels, j["rels"]):
+            if isinstance(je.get("lnk"), dict):
+                ep.lnk = _lnk_o(je["lnk"])
         m.lnk = _lnk_o(j.get("mlnk")) if j.get("mlnk") is not None else m.lnk
         m.surface = j.get("msurface")
         m.identifier = j.get("mident")
         return m
     if rep == "dmrs":
-        d = semgen.dmrs_from_json(j)
+        d = semgen.dmrs_from_json(_strip_kinds(j, "nodes"))
+        for nd, jn in zip(d.nodes, j["nodes"]):
+            if isinstance(jn.get("lnk"), dict):
+                nd.lnk = _lnk_o(jn["lnk"])
         if j.get("mlnk") is not None:
             d.lnk = _lnk_o(j["mlnk"])
         d.surface = j.get("msurface")
@@ -243,6 +316,9 @@ GROUPS = ("toplnk", "topsurface", "ident", "index", "lnk", "surface", "base", "t
 def carried(fmt, properties, lnk):
     """field groups that survive encode+decode of format `fmt` under the given flags"""
     key = (fmt, properties, lnk)
+    if fmt == "indexedmrs":
+        got = set(GROUPS) - {"toplnk", "topsurface", "ident", "surface", "base", "props", "propcase"}
+        return got if lnk else got - {"lnk"}
     if key not in _CARRIED:
         c = codec(fmt)
         o = _probe(REP[fmt])
@@ -293,8 +369,14 @@ def common_view(v, fmts, properties, lnk):
     for f in fmts:
         keep &= carried(f, properties, lnk)
 
+    charonly = any(f not in TEXT_LNK_FORMATS for f in fmts)
+
     def nl(x):
-        return None if x in _NOLNK else x
+        if x in _NOLNK:
+            return None
+        if charonly and not re.fullmatch(r"<-?\d+:-?\d+>", x):
+            return None          # chart spans, token lists and edge ids are not carried by cfrom/cto or from/to
+        return x
     v["lnk"] = nl(v["lnk"]) if "toplnk" in keep else None
     if "topsurface" not in keep:
         v["surface"] = None
@@ -700,7 +782,7 @@ class C20(Check):
     quick_cases = 600
     thorough_cases = 6000
     # integration layer (composition theorems + their own correspondence run): harness/integration.py
-    props_modules = ["Verif.C20.Props", "Verif.Integration.Props"]
+    props_modules = ["Verif.C20.Props", "Verif.Integration.Props", "Verif.Integration.Frame"]
     build_targets = props_modules + ["Verif.C20.Driver", "Verif.Integration.Driver"]
     rule = ("lists of 0-5 MRS/DMRS/EDS items (well-formed tree-built MRS with lnk, surface, constants over an "
             "alphabet of brackets, quotes, backslashes, commas and markup; tree-built DMRS; EDS graphs), every "
@@ -730,6 +812,10 @@ class C20(Check):
         "non-'-lines' sources; never a conversion through a string reader of simplemrs/simpledmrs/eds/indexedmrs/ace/"
         "*penman (their loads()/decode() cut the text with str.splitlines() while load() iterates file lines: recorded "
         "as an observation in DESIGN.md, outside C20)",
+        "every Lnk kind (character span, chart span, token list, edge id, none) occurs on predications/nodes and at graph "
+        "level for the sources that carry them (simplemrs, simpledmrs, eds, edspenman, ace); XML/JSON/Indexed-MRS/DMRS-PENMAN "
+        "sources carry character spans only; the non-character kinds are kept away from the targets dmrspenman (its "
+        "encoder raises ValueError on them) and indexedmrs (writes str(lnk) that its own lexer rejects) -- item-codec matters",
         "indexedmrs is exercised with a harness-made SEM-I and the items it licenses (chains of 1-8 predications without "
         "variable properties), as long source, small source and target; it is not part of the random pair matrix and "
         "of the transcoding clause",
@@ -737,9 +823,11 @@ class C20(Check):
         "that every real item text is such an item is checked on every generated conversion (driver answer 'items_ok'), "
         "not proved",
         "`for line in fh` is modelled with '\\n' as the only line terminator (items contain no '\\r')",
-        "a converter raising PyDelphinException (dropped item) is covered by the model only; the real converters raise "
-        "it on no generated input, so the implementation side of error isolation is exercised through encode failures "
-        "(PENMAN targets on disconnected graphs)",
+        "a converter raising PyDelphinException (dropped item, Outcome.convFail) is covered by the model only: the real "
+        "converters raise it on no input we could construct; what they do raise (IndexError on the F08 class) is NOT "
+        "isolated by _iter_convert -- the whole call fails -- which is modelled (Outcome.convCrash, theorem "
+        "crash_not_isolated) and compared on documents holding such an item; the implementation side of error isolation "
+        "is exercised through encode failures (KeyError on a dangling link/edge)",
         "color=True (pygments highlighting) and show_status are not exercised",
     ]
     trusted_base = ["hand-written model lean/Verif/C20/Model.lean, tied to delphin.commands.convert by the correspondence run "
@@ -895,6 +983,14 @@ class C20(Check):
         def fresh():
             return gen(rng, tricky and not penman)
         items = [fresh() for _ in range(n)]
+        lk = over.pop("lnk_kind", None)
+        kinds = lnk_kinds_of(src)
+        if len(kinds) > 2 and tgt not in NO_KIND_TARGETS:
+            # every Lnk kind the source format carries
+            if lk is not None:
+                apply_lnk_kinds(rng, rep, items, kinds, force=lk)
+            elif rng.random() < 0.5:
+                apply_lnk_kinds(rng, rep, items, kinds)
         sep = over.pop("sep", None)
         dup = over.pop("dup", None)
         if dup is None and n >= 1 and rng.random() < 0.4:
@@ -1028,6 +1124,22 @@ class C20(Check):
         #     XML/JSON sources beyond 16 KiB and 64 KiB, through every input kind, to same- and cross-representation
         #     targets with and without '-lines'
         yield from self.long_cases(rng)
+        # --- every Lnk kind the text formats carry (character span, chart span <a#b>, token list <1 2 3>, edge id <@7>,
+        #     none) on every predication / node and at graph level, from every text-parsed source through a file, a
+        #     stream, a '-lines' file and a profile cell, to text / JSON / XML / cross-representation targets
+        kk = 0
+        for s in ("simplemrs", "simpledmrs", "eds", "edspenman", "ace"):
+            ts = [x for x in TARGETS if supported(s, x) and x not in NO_KIND_TARGETS]
+            for kind in LNK_KINDS:
+                for v in range(4):
+                    kk += 1
+                    t = ts[kk % len(ts)]
+                    lines_src = (v == 2 and s != "ace")
+                    inp = "dir" if (v == 3 and s != "ace") else ("path", "stream", "file", "pathobj")[kk % 4]
+                    yield self.mk_case(rng, s, t, n=2, lnk_kind=kind, dup="none", lnk=True,
+                                       src=SPELLINGS[s][0] + ("-lines" if lines_src else ""),
+                                       tgt=SPELLINGS[t][0] + ("-lines" if kk % 5 == 0 else ""), input=inp,
+                                       select=0, src_indent=[None, 2][kk % 2])
         # --- characters that str.splitlines() treats as line ends inside quoted strings
         yield from self.sep_cases(rng)
         # --- shapes of earlier seeded changes, kept deterministic
@@ -1069,6 +1181,25 @@ class C20(Check):
                     ts = [x for x in TARGETS if supported(s, x)]
                     t = ts[kk % len(ts)]
                     yield self.mk_case(rng, s, t, n=4, input="dir", src=SPELLINGS[s][0], select=q, src_indent=si)
+        # --- a converter crash that is not a PyDelphinException is not isolated (model: Outcome.convCrash)
+        f08 = {"top": ["h", 0], "index": ["e", 2],
+               "rels": [{"pred": "_a_v_1", "label": ["h", 1], "args": [["ARG0", ["e", 2]], ["ARG1", ["e", 3]]],
+                         "carg": None, "lnk": None, "surface": None, "base": None},
+                        {"pred": "_b_v_1", "label": ["h", 1], "args": [["ARG0", ["e", 3]], ["ARG1", ["e", 2]]],
+                         "carg": None, "lnk": None, "surface": None, "base": None}],
+               "hcons": [[["h", 0], "qeq", ["h", 1]]], "icons": [], "vars": []}
+        kk = 0
+        for s in ("simplemrs", "mrsjson", "mrx"):
+            for t in ("dmrsjson", "simpledmrs", "eds", "edsjson", "mrsjson", "dmrstikz"):
+                for pos in (0, 1, 2):
+                    kk += 1
+                    if tier == "quick" and kk % 3:
+                        continue
+                    c = self.mk_case(rng, s, t, n=2, dup="none", src=SPELLINGS[s][0], tgt=SPELLINGS[t][0],
+                                     input=("path", "stream", "dir", "file")[kk % 4], select=0)
+                    c["items"].insert(pos, copy.deepcopy(f08))
+                    c["f08"] = True
+                    yield c
         # --- ACE sources: 0, 1, 2, 3+ readings per SENT: line (mixed), SKIP: lines, sentences without a reading between
         #     others, ';' / SENT: / NOTE: inside quoted constants; targets that carry the surface string, lnk on and off
         kk = 0
@@ -1228,11 +1359,11 @@ class C20(Check):
                 layout = None          # (a shrunk case: one reading per sentence)
             return ace_texts(objs, layout)
         if src_lines:
-            singles = [sc.encode(o, indent=None) for o in objs]
+            singles = [sc.encode(o, properties=True, lnk=True, indent=None) for o in objs]
             return singles, "".join(s + "\n" for s in singles)
         ind = case.get("src_indent")
-        singles = [sc.dumps([o], indent=ind) for o in objs]
-        return singles, sc.dumps(objs, indent=ind)
+        singles = [sc.dumps([o], properties=True, lnk=True, indent=ind) for o in objs]
+        return singles, sc.dumps(objs, properties=True, lnk=True, indent=ind)
 
     def _selected(self, case, n):
         rows = dir_layout(n)
@@ -1249,7 +1380,7 @@ class C20(Check):
         tsdb.write(d, "item", [(i, "sentence %d" % i) for i in iids], SCHEMA["item"])
         pids = sorted({(p, i) for i, p, _ in rows})
         tsdb.write(d, "parse", [(p, i) for p, i in pids], SCHEMA["parse"])
-        tsdb.write(d, "result", [(p, r, sc.dumps([o], indent=case.get("src_indent")))
+        tsdb.write(d, "result", [(p, r, sc.dumps([o], properties=True, lnk=True, indent=case.get("src_indent")))
                                  for (i, p, r), o in zip(rows, objs)], SCHEMA["result"])
         return d
 
@@ -1374,7 +1505,10 @@ class C20(Check):
                         res.append(("convFail",))
                         continue
                     except Exception as e:
-                        res.append(("own", "convert:" + type(e).__name__))
+                        if case.get("f08"):
+                            res.append(("convCrash", type(e).__name__))     # escapes _iter_convert: the whole call fails
+                        else:
+                            res.append(("own", "convert:" + type(e).__name__))
                         continue
                 try:
                     s = tc.encode(x, **kw)
@@ -1407,6 +1541,8 @@ class C20(Check):
         if case["kind"] == "plan":
             return impl_res
         if "err" in impl_res:
+            if case.get("f08") and impl_res["err"] in ("IndexError", "KeyError"):
+                return {"err": "ConverterError"}
             return impl_res
         per = self.per_item(case)
         src, sl, tgt, tl = self._names(case)
@@ -1416,6 +1552,11 @@ class C20(Check):
 
     # ---- direct oracle
     def oracle(self, case, res):
+        if case.get("kind") == "convert" and case.get("f08"):
+            # an item of the class of finding F08 (C04/C05/C07: mutual non-scopal arguments in one scope) inside a
+            # document: outside the property's item space; what the command does (the converter's IndexError
+            # escapes, the whole call fails) is compared with the model only
+            return []
         if case.get("kind") == "convert" and case.get("out_of_space"):
             # compared, but a difference outside the property's item space is not a violation by itself
             diffs = self.oracle_in_space(case, res)
@@ -1550,6 +1691,28 @@ class C20(Check):
                                 fail("transcoding to another format of the same representation and back changes a structure "
                                      "beyond what both formats carry", repr((src, tgt, i, vo, va)))
                                 break
+            # (e) the items the source reader delivers are the items that were written: the i-th structure read from
+            #     the source text on its own equals the i-th original structure (built without any parser) on what
+            #     the source format carries -- incl. the kind and value of every lnk
+            objs = self._objs(case)
+            singles, _ = self._source_texts(case, src, sl)
+            idx = list(range(len(singles)))
+            if case["input"] == "dir":
+                _, idx = self._selected(case, len(singles))
+            fm = ("simplemrs",) if src == "ace" else (src,)
+            for i in idx:
+                if src == "ace":
+                    x = ace_reading_alone(singles[i])
+                else:
+                    x = read_string_or_file(sc, singles[i], True) if sl else read_string_or_file(sc, singles[i], False)[0]
+                vx, vo = view(x), view(objs[i])
+                if src == "ace":
+                    vo["surface"] = vx["surface"]
+                a, b = common_view(vx, fm, True, True), common_view(vo, fm, True, True)
+                if a != b:
+                    fail("the source reader delivers a different structure than the item that was written",
+                         repr((src, i, b, a)))
+                    break
             # (d) purity: the same input converted again -- directly, and after a conversion with other
             #     options (other indent, other target) in the same process -- gives the identical text
             out2, err2 = self.run_convert(case)
@@ -1634,6 +1797,16 @@ class C20(Check):
         inc("input:" + case["input"])
         inc("indent:" + str(case["indent"]))
         inc("dup:" + case.get("dup", "none"))
+        kinds_seen = set()
+        for it in case["items"]:
+            for u in (it.get("rels") or it.get("nodes") or []) + [{"lnk": it.get("mlnk")}]:
+                l = u.get("lnk")
+                kinds_seen.add("none" if l is None else (l["k"] if isinstance(l, dict) else "char"))
+        for kd in sorted(kinds_seen):
+            inc("lnk-kind:" + kd)
+        if case.get("f08"):
+            inc("converter-crash item in a document (F08 class): " + ("call fails " + res["err"] if res and "err" in res
+                                                                       else "call succeeds"))
         if case.get("out_of_space"):
             inc("out-of-space (separator characters in strings)")
             inc("out-of-space:" + ("src-lines" if sl else case["input"]) + (":tgt-lines" if tl else ""))
